@@ -157,6 +157,18 @@ def explore(desc, tier, scratch=None, max_violations=3):
                     v = _mk_violation(world, j, resF['diff'], None, ocF, history)
                     v['env_extra'] = extra
                     violations.append(v)
+            # ---- observation only: a stage that leaves through SystemExit (not an Exception) ----
+            # Borderline for the statement ("an error raised by any stage"), so never a verdict;
+            # counted and printed so that a restore written as `except Exception:` is at least seen.
+            inwin_l1 = [e for e in events[:r] if e['adm'] and e['ckey'] in l1 and win is not None and e['i'] >= win]
+            for e in inwin_l1[:1] + inwin_l1[-1:] if len(inwin_l1) > 1 else inwin_l1[:1]:
+                world.restore_rw()
+                resX = world.execute(j, fault=inject.Fault(e['i'], 'SystemExit', tuple(identity(e))),
+                                     keep_events=False, isolated=True)
+                st['observation_runs_SystemExit'] = st.get('observation_runs_SystemExit', 0) + 1
+                if resX['diff']:
+                    st['observation_not_restored_on_SystemExit'] = \
+                        st.get('observation_not_restored_on_SystemExit', 0) + 1
             # ---- chained faults: a second failure while the first is being handled ------
             nchain = {'quick': 2, 'thorough': 12}.get(tier, 2)
             if tier == 'quick' and world.w['plots'] != 'stub':
